@@ -206,15 +206,23 @@ async fn scenario(sim: Arc<Sim>, unit: Value) -> Obs {
     let dials: Vec<(Holder, Option<PeerId>, u64)> = unit["dials"].as_array().unwrap().iter().map(|d| (holder(d[0].as_str().unwrap()), match d[1].as_str() { Some("x") => Some(xid), Some("y") => Some(yid), _ => None }, d[2].as_u64().unwrap())).collect();
     sim.fabric.set_fate_window(0, unit["fate_budget"].as_u64().unwrap_or(0) as usize);
     let mut handles = vec![];
+    // the address may be handed over as a SocketAddr, as a string, or as a (host, port) pair
+    let form = unit["addr_form"].as_str().unwrap_or("socket").to_string();
     for (i, (h, expect, off)) in dials.iter().cloned().enumerate() {
         let (v2, addr, sim2) = (v.clone(), addr_of(h), sim.clone());
+        let form = form.clone();
         handles.push(tokio::spawn(async move {
             tokio::time::sleep(ms(off)).await;
             // a subscription taken before the call, to check "connected at some instant before the call returns"
             let (mut sub, snap) = v2.subscribe().unwrap();
+            let address: anemo::types::Address = match form.as_str() {
+                "string" => addr.to_string().into(),
+                "host_port" => (addr.ip().to_string(), addr.port()).into(),
+                _ => addr.into(),
+            };
             let r = match expect {
-                Some(e) => v2.connect_with_peer_id(addr, e).await,
-                None => v2.connect(addr).await,
+                Some(e) => v2.connect_with_peer_id(address, e).await,
+                None => v2.connect(address).await,
             };
             let listed_now = v2.peers();
             let queued: Vec<PeerEvent> = drain_events(&mut sub);
@@ -228,7 +236,7 @@ async fn scenario(sim: Arc<Sim>, unit: Value) -> Obs {
     sim.fabric.set_fate_budget(0);
     for (i, r, snap, listed_now, queued, t) in &results {
         let (h, expect, _) = dials[*i];
-        let ctx = format!("[{}dial #{i}: address held by {h:?}, {}]", match unit["pre"].as_str() { Some(p) => format!("history {p}; "), None => String::new() }, match expect { Some(e) => format!("expecting {}", sim.label(&e)), None => "no expectation".to_string() });
+        let ctx = format!("[{}{}dial #{i}: address held by {h:?}, {}]", match unit["pre"].as_str() { Some(p) => format!("history {p}; "), None => String::new() }, match unit["addr_form"].as_str() { Some(f) => format!("address given as {f}; "), None => String::new() }, match expect { Some(e) => format!("expecting {}", sim.label(&e)), None => "no expectation".to_string() });
         o.log.push(format!("{ctx} -> {:?} at {t}us", r.as_ref().map(|p| sim.label(p))));
         match r {
             Ok(p) => {
@@ -319,7 +327,7 @@ impl Check for C03 {
         CheckMeta {
             property: "C03",
             level: "fault_enumeration",
-            rule: "caller V, honest X and Y, an impostor replaying X's certificate without X's key, an impostor presenting [own certificate, X's certificate], and a dead address; every single dial (address holder x expected identity in {X, Y, none}), also with X or Y already connected to the caller (inbound or outbound) beforehand, with and without a connection limit of 1 at the caller that this history already fills, and every pair of dials (all 15 x 15 combinations x start offsets {0, 3, 9, 100} ms, the last one sequential), plus background dials to a High-affinity known peer X whose address list is partly held by Y, an impostor or nobody; each explored over datagram fates within the deviation bound across both handshakes; distinct = distinct (holder, outcome) tuples".into(),
+            rule: "caller V, honest X and Y, an impostor replaying X's certificate without X's key, an impostor presenting [own certificate, X's certificate], and a dead address; every single dial (address holder x expected identity in {X, Y, none}; the address given as a SocketAddr, as a string and as a (host, port) pair), also with X or Y already connected to the caller (inbound or outbound) beforehand, with and without a connection limit of 1 at the caller that this history already fills, and every pair of dials (all 15 x 15 combinations x start offsets {0, 3, 9, 100} ms, the last one sequential), plus background dials to a High-affinity known peer X whose address list is partly held by Y, an impostor or nobody; each explored over datagram fates within the deviation bound across both handshakes; distinct = distinct (holder, outcome) tuples".into(),
             assumptions: vec!["three key pairs; the impostor completes whatever handshake the caller lets it complete and sends the acknowledgement".into()],
             exhaustive: true,
         }
@@ -337,6 +345,11 @@ impl Check for C03 {
         }
         for (h, e) in &kinds {
             u.push(json!({"dials":[[h, e, 0]],"bound":tier.pick(2, 3),"fate_budget":24}));
+        }
+        for form in ["string", "host_port"] {
+            for (h, e) in &kinds {
+                u.push(json!({"addr_form":form,"dials":[[h, e, 0]],"bound":tier.pick(1, 2),"fate_budget":24}));
+            }
         }
         for pre in ["x_inbound", "y_inbound", "x_outbound"] {
             for (h, e) in &kinds {
